@@ -9,12 +9,15 @@ _DYN = ('C01', 'C02', 'C03', 'C04')
 _corr, search, replay = R.standard_module('C10', PROPS, {
     'member_trace': _DYN, 'scenario:readded_address_partial_replay': _DYN, 'scenario:joiner_list_read_during_pending_change': _DYN, 'scenario:snapshot_install_changes_cluster_size': _DYN, 'scenario:reelected_leader_membership_gate': _DYN,
     'scenario:member_rollback': _DYN, 'scenario:snapshot_members': _DYN, 'scenario:snapshot_at_membership_entry': _DYN,
+    'scenario:joiner_snapshot_lists_itself': _DYN, 'scenario:duplicate_add_then_truncation': _DYN,
     'scenario:d16': _DYN, 'scenario:d20': _DYN, 'scenario:observer_of_snapshot_installed_voter': _DYN})
 
 
 def correspondence(ctx):
     _corr(ctx)
     ctx.trusted.append('Props/C10m.v speaks about coq/AbstractM (an abstract Raft with PySyncObj\'s membership rules, written by hand from '
-                       'syncobj.py): it is NOT tied to /repo by a translator, a correspondence run or a refinement from the model of the '
-                       'code; only its refutations R2/R4 are tied to the code, by replay of their runs on the real objects '
-                       '(scenarios readded_address_partial_replay, joiner_list_read_during_pending_change)')
+                       'syncobj.py); it is tied to /repo through the refinement of the model of the code with dyn = true to it '
+                       '(Props/TierCM.v, Props/TierCM3.v) for the fragments stated there (no dump files, voters never restart, '
+                       'joiners start with the initial list, vote requests inside the member filter); outside those fragments only '
+                       'its refutations are tied to the code, by replay of their runs on the real objects (scenarios '
+                       'readded_address_partial_replay, joiner_list_read_during_pending_change, joiner_snapshot_lists_itself)')
